@@ -18,6 +18,8 @@ func init() {
 			"every exit of a walk function that signals an error (return r.err()) has recorded an error on all paths in the validation pass; every leaf walker tests null-ness before it tests the JSON kind and, on the null edge, either renders null under Nullable or records the non-null violation; the JSON tree is nulled only in the validation pass (two idempotent array sites frozen); " +
 			"the renderer's bookkeeping stacks (response path, runtime type names, enclosing type names) are balanced on every exit of every walk function. It does not decide JSON validity, key-set equality or projection equality (value level).",
 		Mutants: []Mutant{
+			{Name: "an object is abstract only with more than one possible type (seeded changes C02-2, C02-12, C02-21)", File: "v2/pkg/engine/resolve/node_object.go", Rule: "C02-R13", Key: "Object.isAbstract/not-by-count-alone",
+				Old: "\tif len(o.PossibleTypes) == 1 {\n\t\t_, self := o.PossibleTypes[o.TypeName]\n\t\treturn !self\n\t}\n\treturn false\n", New: "\treturn false\n"},
 			{Name: "forwarded extension keys written raw (reverts the F45 fix)", File: "v2/pkg/engine/resolve/resolvable.go", Rule: "C02-R12", Key: "Resolvable.printExtensions/raw-string-content-printed",
 				Old: "\t\t\tr.printBytes(encodedKey)\n", New: "\t\t\t_ = encodedKey\n\t\t\tr.printBytes(quote)\n\t\t\tr.printBytes([]byte(key))\n\t\t\tr.printBytes(quote)\n"},
 			{Name: "non-JSON string content written between raw quotes (reverts the F44 fix)", File: "v2/pkg/engine/resolve/resolvable.go", Rule: "C02-R12", Key: "Resolvable.walkString/raw-string-content-printed",
@@ -67,6 +69,7 @@ func runC02(r *fw.Run) {
 	defer c02BinarySearchNeedsSortedWriter(r)
 	defer c02ErrorPathNotDoubled(r)
 	defer c02SetNullNeedsAPath(r)
+	defer c02AbstractnessNotByCountAlone(r)
 	defer c02ErrorsIsAnArray(r)
 	defer c02CommaFlags(r)
 	p := r.Prog
@@ -1074,4 +1077,131 @@ func c02StringContentNeverPrintedRaw(r *fw.Run) {
 	}
 	r.Check(nTainted == 0, "C02-R12", "no-raw-string-content", "-", "none of the "+itoa(nSinks)+" printBytes calls of the renderer is fed from GetStringBytes()", "see the individual sites")
 	r.Expect("C02-R12", "printBytes calls in Resolvable methods", nSinks, 100)
+}
+
+// c02AbstractnessNotByCountAlone (R13): an object without __typename is rejected where the position is abstract (its
+// runtime type cannot be checked against the contract). A concrete position and an abstract position with exactly one
+// accessible member both carry one possible type; they differ only in whether that type is the position's own type. The
+// predicate that is conjoined with "the __typename is absent" therefore cannot be a function of the number of possible types
+// alone: it has to read something else of the object (the type name, a membership test). The predicate is found by its role
+// (the call tested together with the absence of the value read by GetStringBytes("__typename")), not by its name.
+func c02AbstractnessNotByCountAlone(r *fw.Run) {
+	p := r.Prog
+	r.Rule("C02-R13", "the predicate that, together with an absent __typename, rejects an object is not a function of len(PossibleTypes) alone: a single-member abstract position and a concrete position have the same count")
+	info := p.Pkg("resolve").TypesInfo
+	n := 0
+	seen := map[*fw.FuncInfo]bool{}
+	for _, fi := range p.Funcs("resolve") {
+		fw.WalkAll(fi.Decl.Body, func(nd ast.Node) bool {
+			is, ok := nd.(*ast.IfStmt)
+			if !ok {
+				return true
+			}
+			op, leaves := fw.NNF(info, is.Cond, true)
+			if op != "and" && op != "atom" {
+				return true
+			}
+			absent := false
+			var preds []*fw.FuncInfo
+			for _, a := range leaves {
+				switch a.Kind {
+				case "Nil", "Empty":
+					if id, isID := ast.Unparen(a.X).(*ast.Ident); isID && fromTypenameRead(fi, info, id) {
+						absent = true
+					}
+				case "True":
+					if c, isCall := ast.Unparen(a.X).(*ast.CallExpr); isCall {
+						if callee := p.FuncOf(fw.Callee(info, c)); callee != nil && callee.Decl.Recv != nil {
+							preds = append(preds, callee)
+						}
+					}
+				}
+			}
+			if !absent {
+				return true
+			}
+			for _, pred := range preds {
+				if seen[pred] {
+					continue
+				}
+				seen[pred] = true
+				n++
+				recv := receiverObj(pred)
+				other := ""
+				countOnly := 0
+				var stack []ast.Node
+				ast.Inspect(pred.Decl.Body, func(x ast.Node) bool {
+					if x == nil {
+						stack = stack[:len(stack)-1]
+						return true
+					}
+					stack = append(stack, x)
+					sel, isSel := x.(*ast.SelectorExpr)
+					if !isSel {
+						return true
+					}
+					if id, isID := ast.Unparen(sel.X).(*ast.Ident); !isID || recv == nil || info.ObjectOf(id) != recv {
+						return true
+					}
+					if _, isField := info.ObjectOf(sel.Sel).(*types.Var); !isField {
+						return true
+					}
+					// directly the argument of len(...)?
+					for i := len(stack) - 2; i >= 0; i-- {
+						if _, isParen := stack[i].(*ast.ParenExpr); isParen {
+							continue
+						}
+						if c, isCall := stack[i].(*ast.CallExpr); isCall && fw.Builtin(info, c) == "len" {
+							countOnly++
+							return true
+						}
+						break
+					}
+					if other == "" {
+						other = sel.Sel.Name
+					}
+					return true
+				})
+				r.Check(other != "", "C02-R13", pred.Name()+"/not-by-count-alone", p.Pos(pred.Decl.Pos()), pred.Name()+" (tested together with the absent __typename in "+fi.Name()+") reads more of the object than the number of its possible types",
+					pred.Name()+" decides over len(PossibleTypes) alone: an abstract position with exactly one accessible member is taken for a concrete one, and an object without __typename is accepted there although its runtime type cannot be checked")
+			}
+			return true
+		})
+	}
+	r.Expect("C02-R13", "predicates conjoined with an absent __typename", n, 1)
+}
+
+// fromTypenameRead: id is a variable assigned (anywhere in fi) from <v>.GetStringBytes("__typename") / Get("__typename").
+func fromTypenameRead(fi *fw.FuncInfo, info *types.Info, id *ast.Ident) bool {
+	obj := info.ObjectOf(id)
+	if obj == nil {
+		return false
+	}
+	found := false
+	fw.WalkAll(fi.Decl.Body, func(nd ast.Node) bool {
+		as, ok := nd.(*ast.AssignStmt)
+		if !ok || len(as.Lhs) != 1 || len(as.Rhs) != 1 {
+			return true
+		}
+		l, isID := as.Lhs[0].(*ast.Ident)
+		if !isID || info.ObjectOf(l) != obj {
+			return true
+		}
+		c, isCall := ast.Unparen(as.Rhs[0]).(*ast.CallExpr)
+		if !isCall || len(c.Args) != 1 {
+			return true
+		}
+		if v, isConst := fw.ConstVal(info, c.Args[0]); isConst && strings.Trim(v, "\"") == "__typename" {
+			found = true
+		}
+		return true
+	})
+	return found
+}
+
+func receiverObj(fi *fw.FuncInfo) types.Object {
+	if fi.Decl.Recv == nil || len(fi.Decl.Recv.List) == 0 || len(fi.Decl.Recv.List[0].Names) == 0 {
+		return nil
+	}
+	return fi.Info().ObjectOf(fi.Decl.Recv.List[0].Names[0])
 }
